@@ -111,7 +111,7 @@ def cmd_eval(a):
         if not os.path.exists(os.path.join(full, "patch.diff")):
             continue
         meta = json.load(open(os.path.join(full, "meta.json")))
-        props = a.props.split(",") if a.props else [meta["property"]] + meta.get("also_check", [])
+        props = a.props.split(",") if a.props else [meta["property"]] + ([] if a.own_only else meta.get("also_check", []))
         wt = worktree("ev-" + d)
         try:
             rc, out = apply_patch(wt, os.path.join(full, "patch.diff"))
@@ -160,6 +160,7 @@ def main():
     e.add_argument("dirs", nargs="*")
     e.add_argument("--tier", default="quick")
     e.add_argument("--props")
+    e.add_argument("--own-only", action="store_true")
     a = ap.parse_args()
     {"import": cmd_import, "eval": cmd_eval}[a.cmd](a)
 
